@@ -64,6 +64,19 @@ def run_all(tier: str):
     out = {}
     timeout = 20000 if tier == "quick" else 60000
     keep = set()
+    # one E1 computation at a time per cache directory: checks started together wait for the first one instead of competing for the
+    # cores (solver verdicts must not flip under load)
+    import fcntl
+    lock = open(os.path.join(cdir, "e1.lock"), "w")
+    fcntl.flock(lock, fcntl.LOCK_EX)
+    try:
+        return _run_all_locked(tier, cdir, verify_file, out, timeout, keep)
+    finally:
+        fcntl.flock(lock, fcntl.LOCK_UN)
+        lock.close()
+
+
+def _run_all_locked(tier, cdir, verify_file, out, timeout, keep):
     for f in FILES:
         tag = hashlib.sha256(f.encode()).hexdigest()[:6]
         cpath = os.path.join(cdir, f"e1-{tag}-{_file_hash(f)}-{tier}.pkl")
